@@ -217,7 +217,7 @@ def cq_eval(spec):
 def distribution(spec):
     """ For a circuit with empty domain and only bits as codomain: the
     tensor over the output bits (unnormalised probabilities). """
-    return cq_eval(spec).real
+    return cq_eval(spec)
 
 
 # ------------------------------------------------------------------ O8 (ZX)
